@@ -91,6 +91,9 @@ partial def loop (h : IO.FS.Stream) (d : DS) : IO Unit := do
   | ["O", "add"] =>
     let c := d.s.conns.length
     fin (applyActs d [.new .transfer, .open c])
+  | ["O", "addfail"] =>
+    let c := d.s.conns.length
+    fin (applyActs d [.new .transfer, .open c, .store c, .register c false, .teardown c])
   | ["O", "dial"] => fin (applyActs d [.new .dial])
   | ["O", "release", c] => fin { d with heldOpen := d.heldOpen.filter (· != c.toNat!) }
   | ["O", "close", c] => fin (applyActs d [.flip c.toNat!, .teardown c.toNat!])
